@@ -1,6 +1,7 @@
 package main
 
 import (
+	"strconv"
 	"fmt"
 	"go/token"
 	"go/types"
@@ -3130,11 +3131,16 @@ func ruleGuardOwnField(id string) func(*Checker) {
 				if !ok || (bo.Op != token.EQL && bo.Op != token.NEQ) {
 					continue
 				}
-				if e, isC := constString(bo.Y); !isC || e != "" {
+				e, isC := constString(bo.Y)
+				if !isC {
 					continue
 				}
 				fld, owner := loadedFieldOwner(bo.X)
 				if fld == nil || !strings.Contains(owner, "Meta") {
+					continue
+				}
+				if e != "" {
+					c.fail(id, p.FuncName(fn), "field "+fld.Name()+" compared with the empty string", p.Pos(ifi.Cond.Pos()), "the metadata field "+fld.Name()+" is compared with "+strconv.Quote(e)+": the presence test of a metadata field is a comparison with the empty string; any other literal drops (or keeps) exactly the values equal to it")
 					continue
 				}
 				ne := 1
